@@ -36,6 +36,7 @@
  */
 
 #include "cmb_resourceguard.h"
+#include "cmb_condition.h"
 #include "cmb_event.h"
 #include "cmb_logger.h"
 
@@ -109,6 +110,7 @@ void cmb_resourceguard_initialize(struct cmb_resourceguard *rgp,
 
     rgp->guarded_resource = rbp;
     cmi_slist_initialize(&(rgp->observers));
+    rgp->evaluate_all = false;
 }
 
 void cmb_resourceguard_terminate(struct cmb_resourceguard *rgp)
@@ -239,7 +241,14 @@ bool cmb_resourceguard_signal(struct cmb_resourceguard *rgp)
                                                          struct observer_tag,
                                                          listhead);
         struct cmb_resourceguard *obs = ot->observer;
-        cmb_resourceguard_signal(obs);
+        if (obs->evaluate_all) {
+            /* A condition variable: each waiter has its own predicate, a false
+             * one at the front must not hide a true one further back */
+            (void)cmb_condition_signal((struct cmb_condition *)(obs->guarded_resource));
+        }
+        else {
+            (void)cmb_resourceguard_signal(obs);
+        }
         ohead = ohead->next;
     }
 
